@@ -101,6 +101,58 @@ func main() {
 		}
 	}
 
+	{
+		// prewriteRegion / commitRegion: one RPC per attempt carrying exactly the keys it was given,
+		// and success (`return nil`) only after that RPC came back without region or key error.
+		// Expected shape: inside the attempt loop, the request is built from the parameter
+		// (`Mutations: muts` / `Keys: cloneKeys(keys)`) and every `return nil` of the function sits
+		// inside the loop, after the `st.client.Kv…` call.
+		for _, fn := range []struct{ name, rpc, field, want, fact string }{
+			{"Client.prewriteRegion", "st.client.KvPrewrite", "Mutations", "muts", "client.prewriteSendsAll"},
+			{"Client.commitRegion", "st.client.KvCommit", "Keys", "cloneKeys(keys)", "client.commitSendsAll"},
+		} {
+			fd := cf.Func(fn.name)
+			anchor := "raftstore/client/client.go:" + strings.TrimPrefix(fn.name, "Client.")
+			ok, val := false, "true"
+			if fd != nil {
+				var loop *ast.ForStmt
+				for _, st := range fd.Body.List {
+					if f, isFor := st.(*ast.ForStmt); isFor {
+						loop = f
+					}
+				}
+				var rpcPos token.Pos
+				fieldOK := false
+				if loop != nil {
+					ast.Inspect(loop.Body, func(n ast.Node) bool {
+						if ce, isCall := n.(*ast.CallExpr); isCall && cf.Src(ce.Fun) == fn.rpc {
+							rpcPos = ce.Pos()
+						}
+						if kv, isKV := n.(*ast.KeyValueExpr); isKV && cf.Src(kv.Key) == fn.field {
+							fieldOK = cf.Src(kv.Value) == fn.want
+						}
+						return true
+					})
+				}
+				if loop != nil && rpcPos != token.NoPos {
+					ok = true
+					if !fieldOK {
+						val = "false" // the request does not carry exactly what the caller passed
+					}
+					ast.Inspect(fd.Body, func(n ast.Node) bool {
+						if r, isRet := n.(*ast.ReturnStmt); isRet && len(r.Results) == 1 && cf.Src(r.Results[0]) == "nil" {
+							if r.Pos() < rpcPos || r.Pos() > loop.End() {
+								val = "false" // success reported without a successful RPC
+							}
+						}
+						return true
+					})
+				}
+			}
+			o.Set(fn.fact, anchor, val, ok, "true")
+		}
+	}
+
 	// ---------------------------------------------------------------- percolator/txn.go (C28 needs C18's decision)
 	pf := o.Load("percolator/txn.go")
 	{
@@ -159,6 +211,36 @@ func main() {
 			})
 		}
 		o.Set("perc.prewriteForeignLock", anchor, val, found, "locked")
+	}
+	{
+		// prewriteMutation: `if lock != nil [&& lock.Ts == req.StartVersion] { return nil }` after the
+		// foreign-lock test = a duplicate prewrite keeps the transaction's own lock (and a pushed
+		// min-commit ts); absent = the lock is rewritten.  (same rule and name as the perc engine)
+		pm := pf.Func("prewriteMutation")
+		keeps, shapeOK, foreign := false, pm != nil, false
+		nospace := func(x string) string { return strings.ReplaceAll(x, " ", "") }
+		if pm != nil {
+			for _, st := range pm.Body.List {
+				is, ok := st.(*ast.IfStmt)
+				if !ok || is.Init != nil {
+					continue
+				}
+				c := nospace(pf.Src(is.Cond))
+				if !strings.HasPrefix(c, "lock!=nil") {
+					continue
+				}
+				switch {
+				case c == "lock!=nil&&lock.Ts!=req.StartVersion":
+					foreign = true
+				case (c == "lock!=nil" || c == "lock!=nil&&lock.Ts==req.StartVersion") && foreign &&
+					is.Else == nil && len(is.Body.List) == 1 && pf.Src(is.Body.List[0]) == "return nil":
+					keeps = true
+				default:
+					shapeOK = false
+				}
+			}
+		}
+		o.Set("prewrite.keepsOwnLock", "percolator/txn.go:prewriteMutation", fmt.Sprint(keeps), shapeOK && foreign, "true")
 	}
 	{
 		// rollbackKey removes the lock only if it belongs to the transaction being rolled back.
@@ -319,6 +401,15 @@ func main() {
 		}
 	}
 	{
+		// oracle.readTs: a new transaction waits, without a deadline, until every commit at or below
+		// its read timestamp has been applied.  Expected statement:
+		//   utils.Check(o.txnMark.WaitForMark(context.Background(), readTs))
+		tx := o.Load("txn.go")
+		fd := tx.Func("oracle.readTs")
+		ok := fd != nil && tx.HasStmt(fd.Body, "utils.Check(o.txnMark.WaitForMark(context.Background(), readTs))")
+		o.Set("oracle.readTsWaitsUnbounded", "txn.go:oracle.readTs", "true", ok, "true")
+	}
+	{
 		const anchor = "cmd/nokv-redis/backend_raft.go:IncrBy/Set/mutate"
 		rf := o.Load("cmd/nokv-redis/backend_raft.go")
 		inc, set, mut := rf.Func("raftBackend.IncrBy"), rf.Func("raftBackend.Set"), rf.Func("raftBackend.mutate")
@@ -350,13 +441,13 @@ open NoKV NoKV.Client
 
 def clientCfg : ClientCfg :=
   { commitOrder := .%s, primaryCommitErrStops := %s,
-    perc := { commitNoLockRejectsRollback := %s, readSkipsRollback := %s } }
+    perc := { commitNoLockRejectsRollback := %s, readSkipsRollback := %s, prewriteKeepsOwnLock := %s } }
 
 def redisCfg : RedisCfg :=
   { detectConflicts := %s, raftConflictFromReadTs := %s, trackGet := %s }
 
 end NoKV.Generated.Client
-`, f["client.commitOrder"], f["client.primaryCommitErrStops"], f["perc.commitNoLockRejectsRollback"], f["perc.getSkipsRollback"],
+`, f["client.commitOrder"], f["client.primaryCommitErrStops"], f["perc.commitNoLockRejectsRollback"], f["perc.getSkipsRollback"], f["prewrite.keepsOwnLock"],
 		f["redis.detectConflicts"], f["redis.raftConflictFromReadTs"], f["txn.trackGet"])
 	o.Write(*jsonOut, *leanOut, lean)
 }
